@@ -784,10 +784,12 @@ func runC20(c *Ctx) {
 	n := 300
 	c20seqBudget = 12
 	if c.Tier == "thorough" {
-		// 1200 histories: beyond roughly 1500 in one process the discv5 transports of the library stop making progress
-		// (every later ping that re-requests a record stays in RequestENR); see c20stuck below
-		n = 1200
-		c20seqBudget = 40
+		// the budget stays at 12 per run: a report with a higher ENR sequence number from a peer nobody listens at makes
+		// the node send to an address without a route in this sandbox; the discv5 library's writeLoop EXITS on the first
+		// non-temporary UDP write error, and once 32 more packets are queued its dispatch loop blocks for good (every later
+		// RequestENR then never returns).  A limit of the library's transport, recorded in DESIGN.md; c20stuck guards the rest.
+		n = 3000
+		c20seqBudget = 12
 	}
 	if c.N > 0 {
 		n = c.N
